@@ -147,6 +147,18 @@ def docPairs (d : Doc) : List (Text × Option Text) := d.flatMap (fun kv => kv.2
 def decodeQs (F : Facts03) (cfg : Cfg) (fields : List Fld) (qs : Text) : Outcome Node :=
   decode F cfg fields (parseQs F qs)
 
+/-! ## the HTTP request headers as a flat document (`_get_http_headers`: the in-header of HttpRpc) -/
+
+/-- `retval[key] = val` -/
+def setDoc : Doc → Text → List (Option Text) → Doc
+  | [], k, v => [(k, v)]
+  | (k', v') :: r, k, v => if k' = k then (k', v) :: r else (k', v') :: setDoc r k v
+
+/-- the WSGI environment's `HTTP_*` entries: name without the prefix, lower case, one value each -/
+def httpHeaders (env : List (Text × Text)) : Doc :=
+  env.foldl (fun acc kv =>
+    if "HTTP_".toList.isPrefixOf kv.1 then setDoc acc ((kv.1.drop 5).map asciiLower) [some kv.2] else acc) []
+
 /-! ## before the protocol sees the request: is it a request for the WSDL? -/
 
 /-- `WsgiApplication.is_wsdl_request` for a GET whose path does not end in `.wsdl` -/
